@@ -2,36 +2,54 @@
 NOT_CLAIMED = {}
 
 TV = "translation_validation"
+PR = "proof"
 TECH_TV = "Coq model + differential correspondence + extracted specification oracle"
+TECH_PR = "machine-checked proof in Coq (theorems over an executable model, pinned in coq/Properties) + differential correspondence of the model with the implementation"
 INTERIM = "interim level until coq/Properties/%s.v holds the pinned theorems; " + TB
+NOTE_PR = ("theorems in coq/Properties/%s.v re-checked by coqc on every run with Print Assumptions audited (closed under the global context); "
+           "the model they speak about is tied to /repo by the correspondence run of the same check; %s; " + TB)
 
 claim("C01", TV, TECH_TV,
       "Executable Coq model of issuer, holder and verifier compared stage by stage with the implementation on generated flows, plus the "
-      "extracted specification (selected view) evaluated on the implementation's output; theorems over the model are being added.",
+      "extracted specification (selected view) evaluated on the implementation's output. Proved so far (coq/Proofs): the issuer emits "
+      "payload_of/disclosures_of of a digest tree whose flags are the marking (IssuerBuild), the verifier's unpacking computes exactly the view "
+      "of that tree for any disclosure list (UnpackView), the codec law (DisclosureCodec); the holder half and the end-to-end composition are "
+      "not yet pinned, hence the level.",
       INTERIM % "C01")
-claim("C02", TV, TECH_TV,
-      "Every enumerated tampering of honest presentations (single-character edits at every position of header/payload/signature, part swaps, "
-      "re-signing, alg rewrites, resolver variations) run on the implementation and on the Coq model fed with the real cryptography's answers; "
-      "must-reject / must-accept judged directly on the implementation.",
-      INTERIM % "C02")
-claim("C05", TV, TECH_TV,
-      "The model, given the logged random draws, predicts payload and disclosures exactly; the independent path-grammar specification "
-      "(Spec/Path.v) decides which positions must be hidden; digest placement, uniqueness, recomputation and the structural leak rule are "
-      "checked on the implementation's output.",
-      INTERIM % "C05")
+claim("C02", PR, TECH_PR,
+      "Theorem C02_accept_implies_verified: for every input, acceptance implies that the signature oracle accepted exactly the presented "
+      "header.payload text under the resolver's key for the unverified iss, with the header's algorithm (known name, key's family), and that "
+      "the claims are computed from that verified payload; C02_tamper under an explicit unforgeability premise; alg/family lemmas. "
+      "Every enumerated tampering (single-character edits at every position, non-alphabet characters, part swaps, re-signing, alg rewrites, "
+      "resolver variations) is run on the implementation and on the model fed with the real cryptography's answers.",
+      NOTE_PR % ("C02", "cryptographic strength of signatures is a premise (unforgeable), malleability of the signature part is decided by the real crates in the runs"))
+claim("C05", PR, TECH_PR,
+      "Theorems: the issuer's tree walk marks exactly the positions the independent path grammar designates (C05_marking*, all four "
+      "strategies, top-level iss/iat/exp exempt, malformed prefix refused, unmatched path without effect); the signed payload is payload_of a "
+      "digest tree with those flags — one digest per hidden claim at its own position, everything else in clear, disclosures [salt,name?,value] "
+      "with digest H(base64url text), _sd_alg sha-256 (C05_shape) — and no digest occurs twice (C05_digests_unique). The run re-derives payload "
+      "and disclosures from the logged draws and checks marking, placement, recomputation and the structural leak rule on the implementation.",
+      NOTE_PR % ("C05", "premises: member names without a leading '[' (the property's quantifier), injective digest oracle, pairwise distinct 22-character ASCII salts"))
 claim("C06", TV, TECH_TV,
       "Holder model compared with the implementation on generated selections; the extracted specification `designated` decides which "
-      "disclosures a type-consistent selection must carry; the weak form is checked for arbitrary selection JSON.",
+      "disclosures a type-consistent selection must carry; the weak form is checked for arbitrary selection JSON. (Proof of the holder walk "
+      "against `designated` is in progress: Proofs/WalkSel.v.)",
       INTERIM % "C06")
-claim("C09", TV, TECH_TV,
-      "Honest flows whose exp / nbf are placed relative to the bracketed clock (never within 120 s of a boundary) run on implementation and "
-      "model; must-reject / must-accept judged on the implementation.",
-      INTERIM % "C09")
-claim("C12", TV, TECH_TV,
-      "_sd lists compared in exact order with the model's (decoy digests = H of the logged draws); presence, uniqueness, form and inertness "
-      "of decoys and the property's statistical order-leak rule evaluated on the implementation's output.",
-      INTERIM % "C12")
-claim("C13", TV, TECH_TV,
-      "Reserved member names planted at every position of generated claim trees, with the unplanted control; issuer model compared with the "
-      "implementation; refusal judged on the implementation.",
-      INTERIM % "C13")
+claim("C09", PR, TECH_PR,
+      "Theorem C09_window: for every input, format, disclosure list and key-binding setting, acceptance implies a numeric exp e with "
+      "now <= e + 60 and, when the signed payload carries a numeric nbf n, n <= now + 60 (absent / null / string / negative exp is never "
+      "accepted); C09_in_window_not_rejected: inside the window validation does not fail. Honest flows with exp / nbf placed relative to the "
+      "bracketed clock are run on implementation and model.",
+      NOTE_PR % ("C09", "the clock is a parameter of the model; the jsonwebtoken Validation logic is restated in Model/Jwt.v and checked differentially"))
+claim("C12", PR, TECH_PR,
+      "Theorems: the `_sd` sort order is a total order and the emitted list is a function of the SET of digests (C12_sort_canonical, C12_order) "
+      "so order reveals neither member order nor decoys; with decoys on each object draws one count c and appends exactly c digests H(fresh "
+      "draw), every object of the body has a decoy when counts >= DECOY_MIN (constant regenerated from the source); with decoys off every "
+      "digest is an issued disclosure's; digests matching no presented disclosure never change the verifier's result (unpack_view). The run "
+      "compares `_sd` lists in exact order with the model and evaluates the property's statistical rule as written.",
+      NOTE_PR % ("C12", "premise: decoy counts in [DECOY_MIN, DECOY_MAX) as rand's gen_range yields; indistinguishability beyond order/form rests on SHA-256 (premise)"))
+claim("C13", PR, TECH_PR,
+      "Theorems: has_reserved decides exactly `some object anywhere has a member named _sd or ...` (C13_has_reserved_spec); such claims are "
+      "refused under every strategy, format, key and randomness (C13_reserved_rejected); claims without such members are never refused for "
+      "that reason (C13_no_false_alarm). Reserved names are planted at every position of generated trees, with the unplanted control.",
+      NOTE_PR % ("C13", "no idealisation involved"))
